@@ -1,5 +1,5 @@
 (* allow-axioms:  *)
-From RRE Require Import Base.Sx Model.Module Proofs.ModuleProofs Proofs.ModuleAcyclicProofs.
+From RRE Require Import Base.Sx Model.Module Proofs.ModuleProofs Proofs.ModuleAcyclicProofs Proofs.ModuleListingProofs.
 Open Scope N_scope.
 From RRE Require Import Properties.C18.
 Check (C18_refused_noop : forall g o g', step g o = (g', false) -> g' = g).
@@ -21,3 +21,7 @@ Check (C18_import_closing_a_cycle_refused : forall ops to from t pat re,
   snd (step (exec init ops) (Import to from t pat re)) = false).
 Check (C18_detect_cycle_is_reachability : forall g to from,
   detect_cycle g to from = true <-> to <> from /\ ~ path (fun a b => In b (graph_of (graph g) a)) from to).
+Check (C18_listing_is_visibility : forall ops n r,
+  exists_mod (mods (exec init ops)) n = true ->
+  exists l, get_visible_rules (exec init ops) n = Some l
+            /\ (mem_str r l = true <-> is_rule_visible (exec init ops) r n = 1 /\ mem_str r (all_rules (mods (exec init ops))) = true)).
